@@ -64,7 +64,7 @@ Let Hntb : NTB <= MT := ntb_le cv c Hns Hnt Hok.
 Lemma hist_parent i : i < ns -> is_hist (fs_type (st c i)) = true -> exists p, fs_parent (st c i) = Some p /\ p < ns.
 Proof.
   intros Hi Eh. destruct (st_parts cv c Hns Hnt Hok i Hi) as (_ & _ & _ & _ & P & _).
-  rewrite Eh in P. specialize (P eq_refl). unfold has_parent in P.
+  rewrite Eh in P. specialize (P eq_refl). unfold bref_has_parent in P.
   destruct (fs_parent (st c i)) as [p|] eqn:Ep; [|discriminate]. exists p. split; [reflexivity|].
   eapply (par_lt cv c Hns Hnt Hok); eassumption.
 Qed.
